@@ -501,6 +501,7 @@ func genFacts() {
 		f["connFilterResetsEof"] = leanBool(strings.Contains(cu.text(cu.fn("ConnCursor.Filter").Body), "vc.eof = false"))
 		f["vacuumDeletesSupersededFirst"] = leanBool(strings.Contains(kvs.text(kvs.fn("DB.getHistoricRootsAndNodes").Body), "roots = make([]string, 0, len(candidateRoots)) ordered := make(map[string]bool, len(candidateRoots)) var supersededFirst func(name string) supersededFirst = func(name string) { if ordered[name] { return } ordered[name] = true if root, ok := rootCacheByName[name]; ok { for _, parent := range root.MergeSources { if _, ok := candidateRoots[parent]; ok { supersededFirst(parent) } } } roots = append(roots, name) } for k := range candidateRoots { supersededFirst(k) } return roots, nodes, nil") &&
 			strings.Contains(kvs.text(kvs.fn("DeleteHistoricVersions").Body), "for _, l := range roots { _, err := s.s3Client.DeleteObjectWithContext(ctx, &s3.DeleteObjectInput{ Key: aws.String(s.merged.Prefix + l),"))
+		f["roSyncEndsTransaction"] = leanBool(strings.HasPrefix(vt.text(vt.fn("VirtualTable.Sync").Body), "{ if c.common.S3Options.ReadOnly { return toSqlite(c.common.Rollback()) }"))
 		f["emptyVersionForgotten"] = leanBool(strings.Contains(kvs.text(kvs.fn("DeleteHistoricVersions").Body), "s.crdt.Source = nil s.crdt.MergeSources = nil s.mergedRoots = map[string][]byte{}"))
 	}
 	rt := kvs.fn("DB.RemoveTombstones")
